@@ -71,6 +71,7 @@ Definition step_exported_only (nd : node) (t : table) (o : op) : table :=
       else fst (handle_logging (node_modules nd) t c spec d)
   | OEmit _ _ _ => t
   | OIdent c | ODisconnect c => fst (set_all t (node_exported nd) c (LStr s_off))
+  | OActivate _ _ | ODeactivate _ _ => t
   end.
 Definition run_exported_only (nd : node) (ops : list op) : table := fold_left (step_exported_only nd) ops [].
 
@@ -83,7 +84,7 @@ Qed.
 Lemma step_exported_only_same nd t o :
   node_exported nd = node_modules nd -> step_exported_only nd t o = fst (step (node_modules nd) t o).
 Proof.
-  intros E. destruct o as [c spec d|m lv py|c|c]; simpl; auto.
+  intros E. destruct o as [c spec d|m lv py|c|c|c sp|c sp]; simpl; auto.
   - unfold handle_logging. rewrite E. destruct (is_all spec).
     + destruct (set_all t (node_modules nd) c d); reflexivity.
     + destruct spec as [s|]; simpl; auto. destruct (mem_name s (node_modules nd)); simpl; auto.
